@@ -3,7 +3,10 @@ package main
 import (
 	"bufio"
 	"bytes"
+	"crypto/sha256"
 	"fmt"
+	"github.com/btcsuite/btcd/chaincfg/chainhash"
+	"github.com/vulpemventures/fastsha256"
 	"os"
 
 	"github.com/vulpemventures/go-elements/transaction"
@@ -547,4 +550,29 @@ func init() {
 	gens["raw"] = genRawCases
 	runs["tx"] = runTx
 	runs["raw"] = runRaw
+}
+
+// ---------- sha: the hash primitives the models execute (SHA-256, double SHA-256, the mid-state helper) ----------
+func genShaCases(r *Rng, n int, w *bufio.Writer) {
+	lens := []int{0, 1, 31, 32, 33, 55, 56, 57, 63, 64, 65, 119, 120, 127, 128, 129, 1000}
+	for i := 0; i < n; i++ {
+		l := lens[i%len(lens)]
+		if i >= 2*len(lens) {
+			l = r.Intn(300)
+		}
+		fmt.Fprintf(w, "sha %s\n", hx(r.Bytes(l)))
+	}
+}
+
+func runSha(t *Toks) string {
+	bs := t.Hex()
+	one := sha256.Sum256(bs)
+	two := chainhash.DoubleHashB(bs)
+	mid := fastsha256.MidState256(append([]byte{}, bs...))
+	return fmt.Sprintf("sha=%s dsha=%s mid=%s", hx(one[:]), hx(two), hx(mid[:]))
+}
+
+func init() {
+	gens["sha"] = genShaCases
+	runs["sha"] = runSha
 }
